@@ -255,7 +255,7 @@ class Builder:
     def describe(self, make):
         """projection of a SynthDesc: name, controls in slot order (name, index, rate, default),
         gate flag, input/output bus units"""
-        out = dict(raised=0, err='', name='', ctl=[], names=[], gate=0, ins=[], outs=[], nconst=0)
+        out = dict(raised=0, err='', msg='', name='', ctl=[], names=[], gate=0, ins=[], outs=[], nconst=0)
         try:
             d = make()
             out['name'] = d.name if isinstance(d.name, str) else repr(d.name)
@@ -284,7 +284,8 @@ class Builder:
             out['nconst'] = len(d.constants) if d.constants is not None else -1
         except Exception as e:
             out['raised'] = 1
-            out['err'] = type(e).__name__ + ': ' + str(e)[:120]
+            out['err'] = type(e).__name__            # short: TLC prints verdict lines on one line only if they are short
+            out['msg'] = str(e)[:200]
         return out
 
     # ------------------------------------------------------------------ residue probes (C20)
